@@ -496,6 +496,7 @@ static struct universe RU;
 static bset DSP[MAXEPOCH + 1], DSK[MAXEPOCH + 1];
 static uint8_t ANS_P[MAXEPOCH + 1][NQ]; /* expected validation state per (data set, query) */
 static uint64_t ANS_K[MAXEPOCH + 1][NQ]; /* digest of expected key set */
+static uint64_t ANS_S[MAXEPOCH + 1][N_SKI]; /* digest of the expected answer of search_by_ski */
 static struct {
 	int rec;
 	int qlen;
@@ -529,6 +530,21 @@ static uint64_t keyset_digest(const bset *k, const bset *o, uint32_t asn, const 
 	/* order-independent digest over (key index, which source) */
 	for (int i = 0; i < RU.nk; i++) {
 		if (RU.k[i].asn != asn || memcmp(RU.k[i].ski, ski, SKI_SIZE))
+			continue;
+		if (bs_has(k, i))
+			h += hmix(0x51, (uint64_t)i);
+		if (bs_has(o, i))
+			h += hmix(0x52, (uint64_t)i);
+	}
+	return h;
+}
+
+static uint64_t skiset_digest(const bset *k, const bset *o, const uint8_t *ski)
+{
+	uint64_t h = 0x7777;
+
+	for (int i = 0; i < RU.nk; i++) {
+		if (memcmp(RU.k[i].ski, ski, SKI_SIZE))
 			continue;
 		if (bs_has(k, i))
 			h += hmix(0x51, (uint64_t)i);
@@ -576,6 +592,49 @@ static void *rreader_main(void *arg)
 		int infl = __atomic_load_n(&RELOADING, __ATOMIC_SEQ_CST);
 		char key[128];
 
+		if (rndp(&rd->rng, 1, 8)) {
+			/* lookup by SKI alone */
+			struct spki_record *res = NULL;
+			unsigned int n = 0;
+			uint64_t h = 0x7777;
+			int sk = (int)rndn(&rd->rng, N_SKI);
+
+			spki_table_search_by_ski(rd->kt, RU.skis[sk], &res, &n);
+			for (unsigned int i = 0; i < n; i++) {
+				struct krec k;
+
+				memset(&k, 0, sizeof(k));
+				k.asn = res[i].asn;
+				memcpy(k.ski, res[i].ski, SKI_SIZE);
+				memcpy(k.spki, res[i].spki, SPKI_SIZE);
+				h += hmix(res[i].socket == &SRC[0] ? 0x52 : 0x51, (uint64_t)universe_find_k(&RU, &k));
+			}
+			lrtr_free(res);
+			e2 = __atomic_load_n(&EPOCH, __ATOMIC_SEQ_CST);
+			if (e1 != e2 || e1 < 1) {
+				rd->o.discarded++;
+				continue;
+			}
+			rd->o.n++;
+			rd->o.inflight += infl ? 1 : 0;
+			if (h != ANS_S[e1 - 1][sk] && h != ANS_S[e1][sk]) {
+				viol("C06", "C06:answer-from-neither-set:search_by_ski", "reader %d epoch %d: search_by_ski returned %u keys, neither the old nor the new set", rd->id, e1, n);
+				return NULL;
+			}
+			if (ANS_S[e1 - 1][sk] != ANS_S[e1][sk]) {
+				rd->o.flips++;
+				if (h == ANS_S[e1][sk]) {
+					last_new_epoch_k = e1;
+					rd->o.saw_new++;
+				} else if (last_new_epoch_k == e1) {
+					viol("C06", "C06:new-then-old:search_by_ski", "reader %d epoch %d: saw the new key set and afterwards the old one", rd->id, e1);
+					return NULL;
+				}
+			} else {
+				rd->o.stable++;
+			}
+			continue;
+		}
 		if (rndp(&rd->rng, 2, 3)) {
 			struct lrtr_ip_addr ip;
 			enum pfxv_state st = 99;
@@ -757,6 +816,9 @@ static void run_reload_case(struct rng *r, long c, int nepoch, int nrec, int nre
 			ANS_K[e][q] = keyset_digest(&DSK[e], &OTHER_K, QK[q].asn, RU.skis[QK[q].ski]);
 		}
 	}
+	for (int e = 0; e <= nepoch; e++)
+		for (int sk = 0; sk < N_SKI; sk++)
+			ANS_S[e][sk] = skiset_digest(&DSK[e], &OTHER_K, RU.skis[sk]);
 	memset(&cfg, 0, sizeof(cfg));
 	cfg.refresh = 10;
 	cfg.retry = 1;
